@@ -240,7 +240,9 @@ C13_Commit_C ==
     /\ \A b \in nb :
           /\ b.ok
           /\ b.parents = Rng(pre.heads)
-          /\ b.packs = Core!Names(np)
+          \* the block names exactly the pack(s) this commit wrote (a pack with the same bytes may already exist: write-once)
+          /\ b.packs = {Item(E.x.writes[j].tok).name : j \in {k \in DOMAIN E.x.writes : Item(E.x.writes[k].tok).kind = "pack" /\ E.x.writes[k].out # "failed"}}
+          /\ Core!Names(np) \subseteq b.packs
           /\ b.idx = 1 + Core!MaxIdx({p \in dpre.items : p.kind = "delta" /\ p.name \in b.parents})
           /\ Rng(Post.heads) = {b.name}
           /\ Rng(E.res.val) = {b.name}
